@@ -332,6 +332,7 @@ func runC11(e *Engine, r *Report) {
 	ruleSnapshotJobExclusion(e, r)
 	ruleLastAppliedContiguous(e, r)
 	ruleTaskQueueFIFO(e, r)
+	ruleJobRegistered(e, r)
 }
 
 func lastN(ss []string, n int) string {
